@@ -74,6 +74,17 @@ def generate(rnd, tier, index=0):
                 op["container"] = "series_auto"
                 if rnd.random() < 0.5 or d > 1:
                     op["rows"] = op["rows"][:1]
+    # later training batches may carry dyadic fractions while the first one is all integers: the history starts as an int
+    # array for the list-fed primary and as a float array for a replica fed float containers (sums stay exact in binary64)
+    first_train = next((i for i, o in enumerate(ops) if o["op"] in ("fit", "partial_fit")), None)
+    if first_train is not None and rnd.random() < 0.4:
+        for o in ops[first_train + 1:]:
+            if o["op"] == "partial_fit" and rnd.random() < 0.7:
+                for r in o["rows"]:
+                    if cfg["lp"][0] != "ThompsonSampling":
+                        r[1] = r[1] + 0.5
+                    if r[2] is not None:
+                        r[2] = [x + 0.5 for x in r[2]]
     extra = []
     for i in range(len(ops) + 1):
         u = rnd.random()
